@@ -13,9 +13,15 @@ package main
 //     order) is bad; kinds of failure: duplicate primary key, duplicate unique key, NULL into
 //     NOT NULL, CHECK violation, foreign-key violation (self-referential), SIGNAL in a BEFORE
 //     INSERT trigger;
-//   * not used: INSERT IGNORE / REPLACE / ON DUPLICATE KEY UPDATE (C13's row-count findings),
-//     composite or string keys (C14's findings), AUTO_INCREMENT columns of `t` (C20), cascading
-//     foreign keys over several tables (C18).
+//   * row provenance: before the failing statement some stored rows are rewritten by successful
+//     INSERT … ON DUPLICATE KEY UPDATE / UPDATE / REPLACE statements (a stored row is a Go slice
+//     whose spare capacity and sharing depend on the statement that wrote it, see
+//     lean/Gms/Model/RowAlias.lean), and multi-row INSERT … ON DUPLICATE KEY UPDATE / REPLACE
+//     statements update / replace such rows before their k-th row fails (NULL, CHECK on the incoming
+//     or on the updated row, conversion error). Only the table state is observed, so C13's
+//     row-count findings for these statements stay out;
+//   * not used: INSERT IGNORE, composite or string keys (C14's findings), AUTO_INCREMENT columns
+//     of `t` (C20), cascading foreign keys over several tables (C18).
 
 import (
 	"fmt"
@@ -101,7 +107,8 @@ func runSQL(a hx.RunArgs, out *hx.Out, r *hx.Rand) error {
 	if a.Thorough {
 		n = 4000
 	}
-	kinds := []string{"dup-pk", "dup-uk", "null", "check", "fk", "signal", "upd-check", "upd-uk", "del-fk"}
+	kinds := []string{"dup-pk", "dup-uk", "null", "check", "fk", "signal", "upd-check", "upd-uk", "del-fk",
+		"odku-null", "odku-check", "odku-updcheck", "odku-conv", "replace-null", "replace-check"}
 	for c := 0; c < n; c++ {
 		cr := r.Fork()
 		e := eng.New("d")
@@ -150,6 +157,24 @@ func runSQL(a hx.RunArgs, out *hx.Out, r *hx.Rand) error {
 		// inserted one at a time so that later rows may reference earlier ones
 		for _, row := range stored {
 			e.MustExec(eng.SameSession(ctx), "INSERT INTO t VALUES "+rowSQL(row, selfFK))
+		}
+		// row provenance: rewrite some stored rows by successful statements of other kinds (their
+		// outcome is not judged here; a statement that fails, e.g. on a foreign key, is simply a no-op)
+		if cr.Chance(2, 3) || strings.HasPrefix(kind, "odku-") || strings.HasPrefix(kind, "replace-") {
+			for k, nk := 0, cr.Range(1, 3); k < nk; k++ {
+				row := hx.Pick(cr, stored)
+				var q string
+				switch cr.Intn(4) {
+				case 0, 1:
+					q = "INSERT INTO t VALUES " + rowSQL(sqlRow{id: row.id, a: 0, b: int64(300 + k), c: 0, p: -1}, selfFK) + " ON DUPLICATE KEY UPDATE a = a + 1"
+				case 2:
+					q = fmt.Sprintf("UPDATE t SET a = a + 1 WHERE id = %d", row.id)
+				default:
+					q = "REPLACE INTO t VALUES " + rowSQL(row, selfFK)
+				}
+				pr := e.Query(eng.SameSession(ctx), q)
+				out.Stat("sql:provenance:" + strings.Fields(q)[0] + ":" + pr.Class())
+			}
 		}
 		// the failing statement
 		nrows := cr.Range(1, 4)
@@ -202,6 +227,47 @@ func runSQL(a hx.RunArgs, out *hx.Out, r *hx.Rand) error {
 				rs = append(rs, rowSQL(row, selfFK))
 			}
 			stmt = "INSERT INTO t VALUES " + strings.Join(rs, ", ")
+		case "odku-null", "odku-check", "odku-updcheck", "odku-conv", "replace-null", "replace-check":
+			// rows 0..pos-1 hit stored rows (updated / replaced), the pos-th row cannot be stored
+			var rs []string
+			perm := cr.Intn(len(stored))
+			for i := 0; i <= pos; i++ {
+				row := stored[(perm+i)%len(stored)]
+				row.b = int64(400 + i) // a fresh unique value: the primary key is the only conflict
+				row.a = int64(cr.Intn(3))
+				row.c = int64(cr.Intn(40))
+				if strings.HasPrefix(kind, "replace-") {
+					row.b = stored[(perm+i)%len(stored)].b
+				}
+				txt := rowSQL(row, selfFK)
+				if i == pos {
+					switch kind {
+					case "odku-null", "replace-null":
+						row.id, row.c = int64(995), -1
+						txt = rowSQL(row, selfFK)
+					case "odku-check", "replace-check":
+						row.id, row.c = int64(996), 100+int64(cr.Intn(5))
+						txt = rowSQL(row, selfFK)
+					case "odku-conv":
+						row.id = 997
+						txt = strings.Replace(rowSQL(row, selfFK), fmt.Sprintf("(%d, %d,", row.id, row.a), fmt.Sprintf("(%d, 'abc',", row.id), 1)
+					case "odku-updcheck":
+						// hits a stored row whose updated c leaves the CHECK range
+						row.c = 99
+						txt = rowSQL(row, selfFK)
+					}
+				}
+				rs = append(rs, txt)
+			}
+			if strings.HasPrefix(kind, "replace-") {
+				stmt = "REPLACE INTO t VALUES " + strings.Join(rs, ", ")
+			} else {
+				set := "a = a + 1, c = c + 1"
+				if kind == "odku-updcheck" {
+					set = "a = a + 1, c = VALUES(c) + IF(VALUES(c) = 99, 1, 0)"
+				}
+				stmt = "INSERT INTO t VALUES " + strings.Join(rs, ", ") + " ON DUPLICATE KEY UPDATE " + set
+			}
 		case "upd-check":
 			// rows are updated in primary-key order; the pos-th one violates the CHECK
 			p := pos % len(stored)
